@@ -17,8 +17,8 @@ prop("C02", "c02",
      "specificity, first rule in rule-set order whose condition holds, backtracking only if enabled for the failed "
      "expression). A case is non-trivial when >=2 expressions match the path or a failing condition forces a "
      "backtracking decision; distinct by (rule sets, method, path).",
-     [dict(run="^TestRepositoryMatchesModel$", quick=1500, thorough=12000, shards_thorough=8),
-      dict(run="^TestTreeMatchesModel$", quick=4000, thorough=40000, shards_thorough=6),
+     [dict(run="^TestRepositoryMatchesModel$", quick=1500, thorough=96000, shards_thorough=8),
+      dict(run="^TestTreeMatchesModel$", quick=4000, thorough=320000, shards_thorough=6),
       dict(run="^TestTreeExhaustiveSmall$", quick=1, thorough=1, shards_thorough=1)],
      ["glob/regex libraries and net/url parsing are trusted", "conditions are method conditions only (path_params are C03)"],
      level="Randomised generated search (rule sets x load orders x paths) against an independent reference matcher plus "
@@ -37,7 +37,7 @@ prop("C01", "c01",
      "necessary condition for a positive answer; observed positive answer must imply it, and a failed pipeline must "
      "yield status >= 300 / denied / gRPC error with the upstream hit counter unchanged. Non-trivial: a step failed, was "
      "skipped, had an unevaluable condition or panicked, or an error handler ran; distinct by the full scenario string.",
-     [dict(run="^TestPositiveAnswerOnlyAfterCompletePipeline$", quick=1500, thorough=12000, shards_thorough=12)],
+     [dict(run="^TestPositiveAnswerOnlyAfterCompletePipeline$", quick=1500, thorough=72000, shards_thorough=12)],
      ["which authenticator failure permits fallback is C04's subject: the model only requires that some authenticator "
       "succeeded and nothing executed before it panicked", "redirect codes are 3xx, status overrides left at defaults (C12)"],
      level="Randomised generated search over pipelines x outcome vectors x error pipelines x entry points on the fully "
@@ -56,7 +56,7 @@ prop("C03", "c03",
      "negations, every path_params expression on the decoded captured value, captures = named wildcards only, decoded per "
      "setting) combined with the C02 reference lookup. Non-trivial: >=2 hosts, a negated method, path_params on a free "
      "wildcard, or an encoded octet in the path; distinct by (rules, request).",
-     [dict(run="^TestMatchConditionsAndCaptures$", quick=2500, thorough=20000, shards_thorough=12)],
+     [dict(run="^TestMatchConditionsAndCaptures$", quick=2500, thorough=160000, shards_thorough=12)],
      ["gobwas/glob and regexp evaluate single expressions correctly (the same libraries are used by the model)",
       "method lists consisting only of negations, or whose result is empty, are don't-care",
       "encoded slashes under setting off are C08's subject; literal segments are sent unencoded (re-encoding is C08)"],
@@ -74,7 +74,7 @@ prop("C06", "c06",
      "GET/POST) equal those of a fresh repository into which the model's current versions are loaded once; a change is "
      "expected to apply iff that fresh load succeeds; a rejected change must return an error and leave all probe answers "
      "unchanged. Non-trivial: the history contains an update or delete; distinct by the canonical history string.",
-     [dict(run="^TestHistoryEqualsFreshLoad$", quick=1500, thorough=8000, shards_thorough=12)],
+     [dict(run="^TestHistoryEqualsFreshLoad$", quick=1500, thorough=48000, shards_thorough=12)],
      ["rules sharing an expression carry the same backtracking flag (undefined otherwise)",
       "add only for absent sources, update/delete only for existing ones (what providers do)"],
      level="Stateful randomised search over rule-set histories with a differential oracle against a freshly loaded "
@@ -91,8 +91,8 @@ prop("C08", "c08",
      "must be 400 (404 only when no rule is applicable at all) and the upstream hit counter stays 0; with no_decode the "
      "captured value and the upstream request line keep the encoded slash, with on both contain '/'. Every case is "
      "non-trivial (a re-encoding that changes the path / an encoded slash); distinct by (rules, entry, base, variant).",
-     [dict(run="^TestReencodingIsInvisible$", quick=1200, thorough=10000, shards_thorough=8),
-      dict(run="^TestEncodedSlashHandling$", quick=1200, thorough=10000, shards_thorough=8)],
+     [dict(run="^TestReencodingIsInvisible$", quick=1200, thorough=70000, shards_thorough=8),
+      dict(run="^TestEncodedSlashHandling$", quick=1200, thorough=70000, shards_thorough=8)],
      ["rule literals consist of unreserved characters only", "Go's net/http accepts the generated request lines"],
      level="Randomised generated search with a metamorphic oracle (RFC 3986 6.2.2.2 equivalence) and a reference lookup for "
            "the encoded-slash settings on the assembled decision and proxy services; bounded exploration.",
@@ -109,7 +109,7 @@ prop("C14", "c14",
      "a request failing the rule's own conditions in front of a less specific always-matching rule (effective backtracking). "
      "Non-trivial: a stage is inherited, the rule is expected to be rejected, or backtracking is set without default rule.",
      [dict(run="^TestStagewiseInheritanceExhaustive$", quick=1, thorough=1, shards_thorough=1),
-      dict(run="^TestOrderingsAndMalformedRules$", quick=1500, thorough=15000, shards_thorough=8)],
+      dict(run="^TestOrderingsAndMalformedRules$", quick=1500, thorough=300000, shards_thorough=8)],
      ["rule sets whose execute list is empty are rejected by rule-set validation before the factory and are not generated"],
      level="Complete enumeration of the stage-inheritance configuration space plus randomised search over orderings and "
            "malformed references, observed behaviourally through the trace of executed probe mechanisms on the assembled service.",
@@ -127,7 +127,7 @@ prop("C04", "c04",
      "the subject, 'no usable credentials' continues, anything else continues only with opt-in. Compared with the subject id "
      "echoed by a header finalizer / the failure status of the decision service. Non-trivial: chain length >= 2 and the "
      "first authenticator does not succeed; distinct by (types, flags, credential classes).",
-     [dict(run="^TestFallbackOnlyOnMissingCredentialsOrOptIn$", quick=1500, thorough=12000, shards_thorough=10)],
+     [dict(run="^TestFallbackOnlyOnMissingCredentialsOrOptIn$", quick=1500, thorough=240000, shards_thorough=10)],
      ["a bearer token that is not in JWT format is 'no usable credential' for the jwt authenticator (documented)",
       "a rejecting identity endpoint (401) surfaces as communication error for the generic authenticator: no fallback without opt-in either way"],
      level="Randomised generated search over authenticator chains x credential classes on the assembled decision service "
@@ -149,8 +149,8 @@ prop("C05", "c05",
      "alg and allowed, trusted issuer, audience, scopes, validity within leeway; subject id and attributes must equal the "
      "signed payload. Cases within 2 s of a time boundary are don't-care. Non-trivial: >= 1 mutation; distinct by (key set, "
      "assertions, header, mutation kinds).",
-     [dict(run="^TestOnlyValidTokensYieldSubjects$", quick=2000, thorough=15000, shards_thorough=12),
-      dict(run="^TestRequiredScopesAreMatched$", quick=1500, thorough=10000, shards_thorough=4)],
+     [dict(run="^TestOnlyValidTokensYieldSubjects$", quick=2000, thorough=120000, shards_thorough=12),
+      dict(run="^TestRequiredScopesAreMatched$", quick=1500, thorough=80000, shards_thorough=4)],
      ["tokens without exp have no upper validity bound (accepted by the reference)", "certificate validation of JWKs is not part of the statement (C10 covers certificate expiry for caching)"],
      level="Randomised generated search over tokens x key sets x assertion configurations on the assembled decision service "
            "against an independent reference verifier; the converse direction is measured only; bounded exploration.",
@@ -170,8 +170,8 @@ prop("C12", "c12",
      "WWW-Authenticate naming the realm; (3) the three entry points agree on status and Location; (4) body empty unless "
      "verbose, otherwise its content type is one of the supported types the Accept header admits with maximal quality and the "
      "body parses as that type. Non-trivial: depth >= 2, a foreign error, or a status override; distinct by (error, overrides, Accept).",
-     [dict(run="^TestInjectedErrorsMapToTheirClass$", quick=700, thorough=6000, shards_thorough=10),
-      dict(run="^TestRedirectAndChallengeHandlers$", quick=300, thorough=3000, shards_thorough=6)],
+     [dict(run="^TestInjectedErrorsMapToTheirClass$", quick=700, thorough=36000, shards_thorough=10),
+      dict(run="^TestRedirectAndChallengeHandlers$", quick=300, thorough=18000, shards_thorough=6)],
      ["values mixing several heimdall kinds: only (1), (3), (4) are asserted", "an Accept header admitting no supported type is don't-care",
       "generated Accept headers avoid overlapping ranges with conflicting weights (library-specific tie breaking)"],
      level="Randomised generated search over error values x overrides x Accept headers on the three assembled services with a "
@@ -189,7 +189,7 @@ prop("C13", "c13",
      "pipeline cookies. Oracle (differential): same decision class and status, same echoed view, same pipeline headers and "
      "cookies on the upstream side of all three entry points. Non-trivial: the pipeline reads a capture, cookie, body field "
      "or multi-valued header; distinct by (request, knobs). evaluations counts executions (3 per logical request).",
-     [dict(run="^TestEntryPointsAgree$", quick=600, thorough=6000, shards_thorough=12)],
+     [dict(run="^TestEntryPointsAgree$", quick=600, thorough=15000, shards_thorough=12)],
      ["Envoy's CheckRequest shape is simulated as in heimdall's own tests (path and query in separate fields)",
       "client IP lists are not part of the compared view (the gRPC service derives them from gRPC metadata)"],
      level="Randomised generated search with a three-way differential oracle on the assembled services; bounded exploration.",
@@ -206,7 +206,7 @@ prop("C09", "c09",
      "reference view: each present header overrides exactly its component, the client list is Forwarded/X-Forwarded-For plus "
      "the peer, and the matched rule equals that of the equivalent direct request. Non-trivial: at least one header that would "
      "change a matching-relevant component; distinct by scenario.",
-     [dict(run="^TestForwardedHeadersOnlyFromTrustedPeers$", quick=1500, thorough=12000, shards_thorough=10)],
+     [dict(run="^TestForwardedHeadersOnlyFromTrustedPeers$", quick=1500, thorough=24000, shards_thorough=10)],
      ["X-Forwarded-Path from a trusted peer has no documented component (don't care)", "peer addresses are ones Go's HTTP server can produce",
       "for trusted peers headers are not repeated (first-value semantics are unspecified)"],
      level="Randomised generated search with a metamorphic oracle (untrusted) and a reference view (trusted) on the assembled "
@@ -226,7 +226,7 @@ prop("C15", "c15",
      "header exactly the pipeline's value arrives; other client headers pass; X-Forwarded-Method/-Uri/-Path never arrive; "
      "X-Forwarded-For or Forwarded ends with the peer address. Non-trivial: encoding present, rewrite configured or a "
      "colliding header; distinct by scenario.",
-     [dict(run="^TestForwardedRequestIsTheRewrittenRequest$", quick=1000, thorough=8000, shards_thorough=10)],
+     [dict(run="^TestForwardedRequestIsTheRewrittenRequest$", quick=1000, thorough=80000, shards_thorough=10)],
      ["raw non-ASCII bytes in the request line are not generated (invalid per RFC 3986)", "a rewrite leaving a relative path is don't-care",
       "the upstream speaks plain http: for TLS client connections the rewrite sets scheme http"],
      level="Randomised generated search against the record of an echo upstream behind the assembled proxy service; bounded exploration.",
@@ -245,13 +245,13 @@ prop("C10", "c10",
      "<= configured TTL; a configured TTL of 0 produces no Set and both requests reach the remote; a response whose RFC 7234 "
      "freshness (independent calculator) is zero/negative or which is not storable is fetched again. Non-trivial: lifetime "
      "within 40 s of now or a configured TTL; distinct by (mechanism, TTL option, lifetime).",
-     [dict(run="^TestIntrospectionResultCaching$", quick=300, thorough=3000, shards_thorough=3),
-      dict(run="^TestGenericAuthenticatorCaching$", quick=300, thorough=3000, shards_thorough=3),
-      dict(run="^TestVerificationKeyCaching$", quick=300, thorough=3000, shards_thorough=3),
-      dict(run="^TestJWTFinalizerCaching$", quick=100, thorough=500, shards_thorough=1),
-      dict(run="^TestClientCredentialsTokenCaching$", quick=300, thorough=3000, shards_thorough=3),
-      dict(run="^TestHTTPResponseCaching$", quick=400, thorough=4000, shards_thorough=3),
-      dict(run="^TestConfiguredTTLBoundsSubjectHandlerCaches$", quick=300, thorough=1000, shards_thorough=1)],
+     [dict(run="^TestIntrospectionResultCaching$", quick=300, thorough=30000, shards_thorough=3),
+      dict(run="^TestGenericAuthenticatorCaching$", quick=300, thorough=30000, shards_thorough=3),
+      dict(run="^TestVerificationKeyCaching$", quick=300, thorough=30000, shards_thorough=3),
+      dict(run="^TestJWTFinalizerCaching$", quick=100, thorough=3000, shards_thorough=1),
+      dict(run="^TestClientCredentialsTokenCaching$", quick=300, thorough=30000, shards_thorough=3),
+      dict(run="^TestHTTPResponseCaching$", quick=400, thorough=40000, shards_thorough=3),
+      dict(run="^TestConfiguredTTLBoundsSubjectHandlerCaches$", quick=300, thorough=6000, shards_thorough=1)],
      ["expiry is checked through the TTL handed to the cache, not by waiting", "internal safety margins of the mechanisms are not asserted (only the bounds of the statement)",
       "no heuristic freshness is expected for responses without explicit expiration information"],
      level="Randomised generated search over lifetimes x TTL options per caching mechanism, observed at a recording cache and "
@@ -271,7 +271,7 @@ prop("C11", "c11",
      "differential) status and upstream headers of B with the cache on (after A) equal those with the cache off; (effectiveness) "
      "8 identical executions of A cause exactly one remote call. Non-trivial: >= 2 map entries in headers/values, or a "
      "non-equal pair; distinct by case.",
-     [dict(run="^TestCacheNeverChangesADecision$", quick=500, thorough=5000, shards_thorough=10)],
+     [dict(run="^TestCacheNeverChangesADecision$", quick=500, thorough=40000, shards_thorough=10)],
      ["the remote systems are deterministic functions of what they receive", "Go randomises map iteration per range: 8 repetitions expose order-dependent keys with high probability"],
      level="Randomised generated search with a cache-on/cache-off differential oracle and a remote call-count oracle; bounded exploration.",
      note="Trusted: the recording cache (Redis semantics) and the deterministic scripted remote side.",
@@ -289,9 +289,9 @@ prop("C16", "c16",
      "reloader rewriting the key store between two stores and firing the registered change listener; every token must verify "
      "with the key published under its kid and every published set is exactly one of the two stores. The same three roles also run as logical threads under generated schedules on a scheduler-instrumented copy of jwt_signer.go (see C07). Non-trivial: custom "
      "claims name a reserved claim or >= 2 entries; distinct by setup.",
-     [dict(run="^TestIssuedTokensVerifyAndCarrySystemClaims$", quick=400, thorough=4000, shards_thorough=8),
+     [dict(run="^TestIssuedTokensVerifyAndCarrySystemClaims$", quick=400, thorough=12000, shards_thorough=8),
       dict(run="^TestConcurrentIssuanceAndReload$", quick=1, thorough=1, shards_thorough=1, race=True),
-      dict(run="^TestScheduledIssuanceAndReload$", quick=1500, thorough=12000, shards_thorough=4, instrument=True)],
+      dict(run="^TestScheduledIssuanceAndReload$", quick=1500, thorough=30000, shards_thorough=4, instrument=True)],
      ["tokens served from cache across a reload are out of scope (the concurrent part uses a ttl below the caching threshold)",
       "the concurrent part relies on real goroutine scheduling and the race detector: not reproducible from the seed"],
      level="Randomised generated search over key stores x claims x TTLs with an independent verifier, plus a race-detector "
@@ -311,7 +311,7 @@ prop("C07", "c07",
      "whose lookup results and applicability of changes come from fresh, unscheduled repositories; deadlock (all threads "
      "blocked), panics and data-race reports are violations. Non-trivial: a context switch while an update is in flight; "
      "distinct by (schedule trace hash, program).",
-     [dict(run="^TestScheduledHistoriesAreLinearizable$", quick=300, thorough=3000, shards_thorough=12, instrument=True),
+     [dict(run="^TestScheduledHistoriesAreLinearizable$", quick=300, thorough=7500, shards_thorough=12, instrument=True),
       dict(run="^TestParallelHistoriesAreLinearizable$", quick=1, thorough=1, shards_thorough=2, race=True)],
      ["yield granularity is the statement of the instrumented files; everything else is atomic in engine A",
       "engine B depends on real scheduling and is not reproducible from the seed; the recorded history is the artefact"],
@@ -332,7 +332,8 @@ prop("C17", "c17",
      "goroutines under -race from the very first execution; a data race report or a behaviour that differs from the object's "
      "first observed behaviour is a violation. Every generated case is non-trivial (>= 2 variants); distinct by (mechanism, "
      "target, load order, execution order).",
-     [dict(run="^TestVariantsAreIndependentOfEachOther$", quick=250, thorough=2500, shards_thorough=10),
+     [dict(run="^TestVariantsAreIndependentOfEachOther$", quick=250, thorough=6250, shards_thorough=10),
+      dict(run="^TestExecutionDoesNotChangeMechanisms$", quick=150, thorough=2500, shards_thorough=4),
       dict(run="^TestConcurrentExecutionIsRaceFree$", quick=1, thorough=1, shards_thorough=2, race=True)],
      ["the remote side is a deterministic function of what it receives", "mechanism caches are off (no cache in the request context) so executions do not influence each other through the cache"],
      level="Randomised generated search over creation/execution orders with a metamorphic oracle, plus a race-detector stress "
